@@ -1145,9 +1145,12 @@ class Irc(IrcCommandDispatcher, log.Firewalled):
         """Helper function to check whether a given string is a channel on
         the network this Irc object is connected to."""
         kw = {}
-        if 'chantypes' in self.state.supported:
+        # A token advertised without a value ("005 nick CHANTYPES :are
+        # supported") is stored as None: fall back to the defaults rather
+        # than raise TypeError for every message that is fed from then on.
+        if self.state.supported.get('chantypes') is not None:
             kw['chantypes'] = self.state.supported['chantypes']
-        if 'channellen' in self.state.supported:
+        if self.state.supported.get('channellen') is not None:
             kw['channellen'] = self.state.supported['channellen']
         return ircutils.isChannel(s, **kw)
 
